@@ -527,6 +527,11 @@ def gen_cases(tier, seed):
         role = "baseline" if i % 4 else "reporting"
         cases.append(dict(kind="daily", family="daily", role=role, tz=str(rng.choice(NO_DST)), n_days=n, entry="frame", k_usage=k if (which != "temp" and role == "baseline") else 0,
                           k_temp=k if which != "usage" or role != "baseline" else 0, how_usage=how, how_temp=how, same_days=(which == "both"), gas=bool(i % 2), n=50000 + i))
+    # a baseline without a single usable meter reading (the meter was offline): "no data at all" is a verdict, not a crash
+    for i in range(3 if q else 12):
+        n_ = [365, 340, 200][i % 3]
+        cases.append(dict(kind="daily", family="daily", role="baseline", tz=str((NO_DST + DST)[(i * 3) % 14]), n_days=n_, entry=["frame", "series"][i % 2], k_usage=n_, k_temp=[0, 5][i % 2],
+                          how_usage="leading", how_temp="random", gas=bool(i % 2), n=70000 + i))
     nh = 12 if q else 150
     for i in range(nh):
         tz = str(rng.choice(NO_DST + DST))
